@@ -361,7 +361,6 @@ func typeShort(t types.Type) string {
 	return "[]byte"
 }
 
-
 // divTerm returns x / c (c > 0, x >= 0 in st) as a linear term: constant multiples of c are
 // split off (so (i+2)/2 is i/2+1) and the quotient atom q is tied to x by c*q <= x <= c*q+c-1.
 func (a *Analyzer) divTerm(st *State, x Lin, c int64, t types.Type) Lin {
